@@ -1,0 +1,43 @@
+//go:build verif
+
+// Contracts for package trie, checked by /verif/govc (comment-only; compiled only under tag verif).
+package trie
+
+//@ define markerOK() = endMarker != nil && allocated(endMarker) && endMarker.valid && endMarker.leaf
+//@ define markerSame() = endMarker == old(endMarker) && endMarker.valid == old(endMarker.valid) && endMarker.leaf == old(endMarker.leaf) && endMarker.min == old(endMarker.min) && endMarker.max == old(endMarker.max) && forall(0, 256, func(k int) bool { return endMarker.children[k] == old(endMarker.children[k]) })
+//@ define minmaxOK(n) = forall(0, 256, func(k int) bool { return implies(n.children[k] != nil, n.min <= k && k <= n.max) })
+
+//@ func NewTrie
+//@   fresh
+//@   ensures result != nil && minmaxOK(result) && !result.valid && !result.leaf
+//@   property C20
+
+//@ func (*Trie).Insert
+//@   requires t != nil && allocated(t) && t != endMarker && markerOK() && minmaxOK(t)
+//@   modifies *
+//@   ensures  marker:: markerOK() && markerSame()
+//@   loop 1 invariant t != nil && allocated(t) && t != endMarker && markerOK() && markerSame()
+//@   loop 1 invariant 0 <= rangeint_iter && rangeint_iter < len(word)
+//@   loop 1 decreases len(word) - rangeint_iter
+//@   loop 1 exit member:: t != nil && t.valid
+//@   property C20
+
+//@ func (*Trie).Prefix
+//@   requires t != nil
+//@   pure
+//@   ensures  implies(len(word) == 0, result == t)
+//@   loop 1 invariant t != nil && 0 <= rangeint_iter && rangeint_iter < len(word)
+//@   loop 1 decreases len(word) - rangeint_iter
+//@   property C20
+
+//@ func (*Trie).Contains
+//@   requires t != nil
+//@   pure
+//@   property C20
+
+//@ func (*Trie).AllBytes
+//@   modifies *
+//@   ensures  implies(t == nil, result0 == 0 && len(result1) == 0)
+//@   ensures  implies(t != nil, result0 >= len(prefix))
+//@   loop 1 invariant longest >= len(prefix) && l1 == len(prefix) && len(newPrefix) == l1 + 1 && t != nil
+//@   property C20
